@@ -961,7 +961,7 @@ func genSrvGoAway(p *prng, thorough bool, w *bufio.Writer) {
 	}
 	for c := 0; c < rounds; c++ {
 		g.newConn(6, 0, 0)
-		small := p.chance(1, 3) // responses blocked by flow control when the offence happens
+		small := c%3 == 0 // responses blocked by flow control when the offence happens (every third connection)
 		if small {
 			g.settings(4, 10)
 		} else {
@@ -1008,8 +1008,8 @@ func genSrvGoAway(p *prng, thorough bool, w *bufio.Writer) {
 			g.done(sid, g.randResp())
 		}
 		if small {
-			// the promised streams finish only now, through a connection-level frame
-			if p.chance(1, 2) {
+			// the promised streams finish only now, through a connection-level frame: SETTINGS alone, or WINDOW_UPDATEs
+			if (c/3)%2 == 0 {
 				g.settings(4, 1<<20)
 			} else {
 				for _, sid := range parked {
